@@ -6,7 +6,7 @@ import json
 import random
 
 from vlib import core, pipeline as P, diffrun
-from vgen import gen as G, gen2 as G2, emit as E, corpus
+from vgen import gen as G, gen2 as G2, emit as E, corpus, byods as B
 from checks.c05 import structural
 
 LEVEL = 'exploration'
@@ -20,7 +20,10 @@ def sizes(ctx):
 
 def split_rows(rng, rows, parts):
     rows = list(rows)
-    cuts = sorted(rng.randrange(0, len(rows) + 1) for _ in range(parts - 1))
+    if len(rows) >= parts + 1:
+        cuts = sorted(rng.sample(range(1, len(rows)), parts - 1))      # non-empty chunks
+    else:
+        cuts = sorted(rng.randrange(0, len(rows) + 1) for _ in range(parts - 1))
     out, prev = [], 0
     for c in cuts + [len(rows)]:
         out.append(rows[prev:c])
@@ -61,6 +64,11 @@ def gen_cases(ctx):
         name, prog, input_rels, mk = f(rng)
         positive = name in ('tc',)
         progs.append(('k_' + name, prog, input_rels, mk, positive, rng, 4))
+    for provider in ('eqrel', 'trrel', 'trrel_uf'):
+        for ternary in (False, True):
+            rng = random.Random(ctx.rng.getrandbits(48))
+            bprog, binputs, bmk = B.simple_positive_program(rng, provider, ternary)
+            progs.append(('b_%s%d' % (provider, 3 if ternary else 2), (bprog, B.reference_program(bprog, provider, ['r'])), binputs, bmk, True, rng, 16))
     while n < sz['programs']:
         rng = random.Random(ctx.rng.getrandbits(48))
         positive = rng.random() < 0.5
@@ -85,13 +93,22 @@ def gen_cases(ctx):
         progs.append(('c%d' % n, prog, input_rels, mk, positive, rng, sz['inputs']))
         n += 1
     for (name, prog, input_rels, mk, positive, rng, ninputs) in progs:
-        vs = [E.Variant('ser', prog, 'ascent'), E.Variant('par', prog, 'ascent_par')]
+        if isinstance(prog, tuple):
+            # BYODS program: the variant is the tagged program, the reference the untagged one with explicit closure rules
+            vprog, prog = prog
+            vs = [E.Variant('ser', vprog, 'ascent')]
+            if name.startswith('b_eqrel2'):
+                vs.append(E.Variant('par', vprog, 'ascent_par'))
+        else:
+            vs = [E.Variant('ser', prog, 'ascent'), E.Variant('par', prog, 'ascent_par')]
         case = P.Case(name, prog, vs, meta={'kind': 'positive' if positive else 'general'})
         for ii in range(ninputs):
             rows = mk(rng)
             hist_kinds = ['rr', 'rrr']
             if positive:
                 hist_kinds += ['rar', 'rarar', 'rar']
+            if name.startswith('b_'):
+                hist_kinds = ['rar', 'rarar', 'rar', 'rr']
             hk = rng.choice(hist_kinds)
             for v in vs:
                 params = {}
